@@ -66,7 +66,11 @@ def concretisations(rec, nconc, rnd):
                 return round(10 ** rnd.uniform(-2, 2), 4)
             return 10 ** rnd.uniform(-2, 2)
         regime = "model" if (j == 0 or not rec["pfree"]) else "int" if rec["pint"] else rnd.choice(["int", "fraction", "fraction", "wide"])
-        if regime == "model":
+        if regime == "model" and rec["cls"] == "element":
+            q = rec["ep"]                                  # the element's proportion is part of the scenario
+            props = [q[0] // q[1] if q[0] % q[1] == 0 else q[0] / q[1]]
+            props2 = props
+        elif regime == "model":
             props = [int(x) if rec["pint"] else float(x) for x in rec["p"]]
             props2 = [x + 1 if rec["pint"] else x / 2 for x in props]
         else:
